@@ -70,11 +70,16 @@ def run_scenario(sc, strategy, max_steps=60000):
             io.startModule(Starter())
 
         def fault():
-            s.sleep(sc['close_at'])
-            if dev.open:
-                dev.refuse = dev.attempts + sc.get('refuse', 0)     # the next k attempts are refused
-                dev.open = False
-                s.log(ev='dev_close')
+            # one outage, or several (close_at = [t1, t2 ...]: the connection has to heal - and polling to resume -
+            # after every one of them, not only after the first)
+            times = sc['close_at'] if isinstance(sc['close_at'], (list, tuple)) else [sc['close_at']]
+            t0 = s.now
+            for t in times:
+                s.sleep(max(0.0, t0 + t - s.now))
+                if dev.open:
+                    dev.refuse = dev.attempts + sc.get('refuse', 0)     # the next k attempts are refused
+                    dev.open = False
+                    s.log(ev='dev_close')
 
         def user(i, txns):
             for txn in txns:
